@@ -1289,6 +1289,12 @@ func (p *Parser) parseDeferredBlocks(objIndex uint32) parseResult {
 			p.popPkgEnd()
 		}
 
+		// Named objects declared inside the deferred block did not exist
+		// yet when connectNamedObjArgs visited the tree; name them now.
+		if p.connectNamedObjArgs(obj.index) != parseResultOk {
+			return parseResultFailed
+		}
+
 		// The parseObjectArgs() call has parsed all children of the deferred node.
 		// At this point we can simply return without processing the children.
 		return parseResultOk
